@@ -71,6 +71,10 @@ func (c *Config) Proxy(closing chan bool, cc io.ReadWriter, url *url.URL) error 
 	}
 
 	cf, sf := http2.NewFramer(cc, cc), http2.NewFramer(sc, sc)
+	// The framer's frame-order check rejects a CONTINUATION frame that follows a
+	// PUSH_PROMISE, so the relays check the order of header block fragments
+	// themselves (see processFrame).
+	cf.AllowIllegalReads, sf.AllowIllegalReads = true, true
 	cToS := newRelay(ClientToServer, "client", url.String(), cf, sf, &c.EnableDebugLogs)
 	sToC := newRelay(ServerToClient, url.String(), "client", sf, cf, &c.EnableDebugLogs)
 
